@@ -542,4 +542,55 @@ example : Term.betaNorm 10
     (.comb (.abs "f" (Ty.fn Ty.bool Ty.bool) (.comb (.bound 0) (.comb (.bound 0) (.var "a" Ty.bool))))
       (.abs "x" Ty.bool (.bound 0))) = .ok (.var "a" Ty.bool) := by rfl
 
+/-- `beta_conv` on a well-typed redex (under any enclosing binders): the result is well-typed at the
+same type and denotes the same in every standard model, valuation and environment. -/
+theorem betaConv_sem (M : Model) (ρ : Valuation) (hρ : Admissible M ρ) (bd : List Ty) (env : List Nat)
+    (henv : EnvOK M bd env) (t r : Term) (S : Ty) (h : Term.checkedGetType bd t = .ok S)
+    (hr : Term.betaConv t = .ok r) :
+    Term.checkedGetType bd r = .ok S ∧ sem M ρ bd env r = sem M ρ bd env t := by
+  unfold Term.betaConv at hr
+  split at hr
+  · rename_i x T b a
+    simp only [Term.substBound, Except.ok.injEq] at hr
+    subst hr
+    exact ⟨checked_beta bd x T S b a h, sem_beta M ρ hρ bd env henv x T S b a h⟩
+  · cases hr
+
+example : Term.betaConv (.comb (.abs "x" Ty.bool (.comb (.var "g" (Ty.fn Ty.bool Ty.bool)) (.bound 0)))
+    (.var "x" Ty.bool)) = .ok (.comb (.var "g" (Ty.fn Ty.bool Ty.bool)) (.var "x" Ty.bool)) := by rfl
+
+/-- `beta_norm`, complete statement of what holds without strong normalisation.  For EVERY recursion
+depth `fuel`: the answer is either a term or "depth exhausted" — never a TermException; and on every
+depth on which it returns, the result (1) contains no redex, (2) is well-typed at the same type,
+(3) denotes the same in every standard model, valuation and environment, and (4) is THE result: every
+larger depth returns the same term (the fuel is not observable; this is what `betaNorm_sem_partial`
+did not say).  What remains unproved is only that SOME depth suffices for every well-typed term
+(strong normalisation of the simply typed lambda calculus); for ill-typed terms none need exist,
+e.g. `(%x. x x) (%x. x x)`. -/
+theorem betaNorm_sem (M : Model) (ρ : Valuation) (hρ : Admissible M ρ) (fuel : Nat)
+    (bd : List Ty) (env : List Nat) (henv : EnvOK M bd env) (t : Term) (S : Ty)
+    (h : Term.checkedGetType bd t = .ok S) :
+    (∀ e, Term.betaNorm fuel t = .error e → e = .fuel) ∧
+    (∀ t', Term.betaNorm fuel t = .ok t' →
+      betaNormal t' = true ∧ Term.checkedGetType bd t' = .ok S ∧
+      sem M ρ bd env t' = sem M ρ bd env t ∧
+      ∀ fuel', fuel ≤ fuel' → Term.betaNorm fuel' t = .ok t') :=
+  ⟨fun e he => betaNorm_error fuel t e he, fun t' hn =>
+    ⟨betaNorm_normal fuel t t' hn, (sem_betaNorm M ρ hρ fuel bd env henv t t' S h hn).1,
+      (sem_betaNorm M ρ hρ fuel bd env henv t t' S h hn).2,
+      fun fuel' hle => betaNorm_mono fuel fuel' t t' hn hle⟩⟩
+
+example : Term.betaNorm 3
+    (.comb (.abs "f" (Ty.fn Ty.bool Ty.bool) (.comb (.bound 0) (.comb (.bound 0) (.var "a" Ty.bool))))
+      (.abs "x" Ty.bool (.bound 0))) = .error .fuel ∧
+    Term.betaNorm 6
+    (.comb (.abs "f" (Ty.fn Ty.bool Ty.bool) (.comb (.bound 0) (.comb (.bound 0) (.var "a" Ty.bool))))
+      (.abs "x" Ty.bool (.bound 0))) = .ok (.var "a" Ty.bool) := by
+  constructor <;> rfl
+
+/-- the self-application `(%x. x x) (%x. x x)` (ill-typed) exhausts every small depth: termination is
+a property of well-typed terms only -/
+example : Term.betaNorm 40 (.comb (.abs "x" Ty.bool (.comb (.bound 0) (.bound 0)))
+    (.abs "x" Ty.bool (.comb (.bound 0) (.bound 0)))) = .error .fuel := by rfl
+
 end Holpy.C03
